@@ -1603,4 +1603,141 @@ theorem slice_need' {α} (start stop : Option Nat) (step : Nat) (items : List α
 theorem sealing_cex : cacheRunSealing 25 (List.range 60) none [some 1, none] = [[0], List.range 25] := by
   decide
 
+/-! ## Phase 5: whole-input branches behind shared caches; Reservoir's run-time check -/
+
+theorem multiCachedRun_spec {α β} (nSlice : Nat) (envs : Nat → List α) (st : Nat → Option (CacheSt α))
+    (h : ∀ e, cacheInv (envs e) (st e)) (reads : List (Nat × Option Nat × (List α → β))) :
+    multiCachedRun nSlice envs st reads = reads.map (fun r => r.2.2 (readSpec (envs r.1) r.2.1)) := by
+  induction reads generalizing st with
+  | nil => rfl
+  | cons r rs ih =>
+    obtain ⟨h1, h2⟩ := cacheRead_spec nSlice (envs r.1) (st r.1) r.2.1 (h r.1)
+    simp only [multiCachedRun, cachedRead, List.map_cons, h2]
+    congr 1
+    apply ih
+    intro e
+    by_cases he : e = r.1
+    · subst he; simpa using h1
+    · simpa [he] using h e
+
+theorem branchRun_spec {α} (nSlice : Nat) (envs : Nat → List α) (reads : List (BranchRead α)) :
+    branchRun nSlice envs reads = reads.map (branchSpec envs) := by
+  unfold branchRun
+  rw [multiCachedRun_spec nSlice envs (fun _ => none) (fun _ => trivial), List.map_map]
+  apply List.map_congr_left
+  intro r _
+  simp only [Function.comp, branchSpec]
+  cases hp : pullNeed r.pull r.k with
+  | none => rfl
+  | some n =>
+    have : n = 0 := by
+      cases hpl : r.pull <;> cases hk : r.k <;> simp [hpl, hk, pullNeed] at hp
+      · rename_i k; cases k <;> simp [pullNeed] at hp; exact hp.symm
+      · exact hp.symm
+      · exact hp.symm
+    subst this
+    simp [readSpec]
+
+theorem resLoop_ok_iff {α} (steps : List Step) (rest res : List α) :
+    (∃ out, resLoop steps rest res = .ok out) ↔ resLoopOk steps rest.length res.length = true := by
+  induction steps generalizing rest res with
+  | nil => simp [resLoop, resLoopOk]
+  | cons st steps ih =>
+    cases st with
+    | raise e => simp [resLoop, resLoopOk]
+    | skip S slot =>
+      simp only [resLoop, resLoopOk]
+      by_cases hle : rest.length ≤ S
+      · simp [hle, List.drop_eq_nil_of_le hle]
+      · have hlt : S < rest.length := by omega
+        obtain ⟨y, rest', hd⟩ : ∃ y rest', rest.drop S = y :: rest' := by
+          cases hdd : rest.drop S with
+          | nil => simp [List.drop_eq_nil_iff] at hdd; omega
+          | cons y r => exact ⟨y, r, rfl⟩
+        have hlen : rest'.length = rest.length - S - 1 := by
+          have := congrArg List.length hd
+          simp at this; omega
+        simp only [hd, hle, if_false]
+        by_cases hs : slot < res.length
+        · simp only [hs, if_true, decide_true, Bool.true_and]
+          rw [ih rest' (res.set slot y), hlen, List.length_set]
+        · simp [hs]
+
+theorem reservoir_ok_iff {α} (count : Option Nat) (strict : Bool) (s : Nat) (steps : List Step) (xs : List α) :
+    (∃ out, reservoir count strict s steps xs = .ok out) ↔ reservoirOk count steps xs.length = true := by
+  cases count with
+  | none => simp [reservoir, reservoirOk]
+  | some n =>
+    cases n with
+    | zero => simp [reservoir, reservoirOk]
+    | succ n =>
+      simp only [reservoir, reservoirOk, List.length_take]
+      by_cases h : xs.length < n + 1
+      · have : min (n+1) xs.length < n + 1 := by omega
+        simp [this, h]
+      · have h2 : ¬ min (n+1) xs.length < n + 1 := by omega
+        simp only [h2, h, if_false]
+        rw [resLoop_ok_iff, (C05.shuffle_perm' s _).length_eq, List.length_take, List.length_drop]
+        have : min (n+1) xs.length = n + 1 := by omega
+        rw [this]
+
+
+theorem branchRun_complete {α} (nSlice : Nat) (envs : Nat → List α) (reads : List (BranchRead α))
+    (i : Nat) (hi : i < reads.length) (hk : reads[i].k = none) (hp : reads[i].pull ≠ .never) :
+    (branchRun nSlice envs reads)[i]? = some (reads[i].F (envs reads[i].env)) := by
+  rw [branchRun_spec, List.getElem?_map, List.getElem?_eq_getElem hi]
+  simp only [Option.map_some, branchSpec, hk]
+  cases hpl : reads[i].pull with
+  | never => exact absurd hpl hp
+  | eager => simp only [pullNeed, consume]; cases reads[i].F (envs reads[i].env) <;> rfl
+  | onFirst => simp only [pullNeed, consume]; cases reads[i].F (envs reads[i].env) <;> rfl
+
+theorem reservoirF_zero {R α} (ops : FloatOps R) (strict : Bool) (s nT : Nat) (xs : List α) :
+    reservoirF ops (some 0) strict s nT xs = .ok [] := rfl
+
+theorem reservoirF_ok_iff {R α} (ops : FloatOps R) (n : Nat) (strict : Bool) (s nT : Nat) (xs : List α) :
+    (∃ out, reservoirF ops (some n) strict s nT xs = .ok out) ↔
+      reservoirOk (some n) (floatSteps ops n ops.one (triples (reservoirState (some n) s xs) nT)) xs.length = true := by
+  simp only [reservoirF]
+  exact reservoir_ok_iff (some n) strict s _ xs
+
+/-! ## Phase 5: the extracted `shuffle` / `chunk` programs, interpreted -/
+
+
+theorem runShuffle_model (c : ShuffleCall) : runShuffle c 20 shuffleProgram none = some (shuffleSeeds c) := by
+  cases c with
+  | n k =>
+    cases k with
+    | zero => decide
+    | succ k =>
+      have h : (List.range (k+1)).isEmpty = false := by simp
+      simp [runShuffle, shuffleProgram, shuffleTail, evalTest, evalExpr, shuffleSeeds, h]
+  | kwInt v =>
+    simp [runShuffle, shuffleProgram, shuffleTail, evalTest, evalExpr, shuffleSeeds]
+  | kwRow row =>
+    cases h : flatRow row with
+    | nil => simp [runShuffle, shuffleProgram, shuffleTail, evalTest, evalExpr, shuffleSeeds, h]
+    | cons a r => simp [runShuffle, shuffleProgram, shuffleTail, evalTest, evalExpr, shuffleSeeds, h]
+  | args row =>
+    cases h : flatRow row with
+    | nil => simp [runShuffle, shuffleProgram, shuffleTail, evalTest, evalExpr, shuffleSeeds, h]
+    | cons a r => simp [runShuffle, shuffleProgram, shuffleTail, evalTest, evalExpr, shuffleSeeds, h]
+
+theorem runChunk_model (cache : Bool) : runChunk cache chunkProgram = some (chunkFilters cache) := by
+  cases cache <;> decide
+
+theorem shuffleSeeds_ne_nil (c : ShuffleCall) : shuffleSeeds c ≠ [] := by
+  cases c with
+  | n k => cases k <;> simp [shuffleSeeds, List.range_succ]
+  | kwInt v => simp [shuffleSeeds]
+  | kwRow row => simp only [shuffleSeeds]; split <;> simp_all
+  | args row => simp only [shuffleSeeds]; split <;> simp_all
+
+theorem chunkRun_spec {α} (cache : Bool) (nSlice : Nat) (items : List α) (reads : List (Option Nat)) :
+    chunkRun cache nSlice items reads = reads.map (readSpec items) := by
+  cases cache
+  · rfl
+  · simp only [chunkRun, if_true]
+    exact cacheRun_spec nSlice items none trivial reads
+
 end Coba.C09
